@@ -553,7 +553,11 @@ class Subscription(BaseSubscription):
                 await queue.put((sub_id, event))
         await queue.put((sub_id, None))
 
-    def evaluate_filter(self, filter_obj, subwhere):
+    def evaluate_filter(self, filter_obj, subwhere, params=None):
+        # tag names and values are free-form text: they are passed as bound
+        # parameters (collected in params), never spliced into the statement
+        if params is None:
+            params = {}
         if filter_obj.ids is not None:
             if filter_obj.ids:
                 exact = []
@@ -608,16 +612,20 @@ class Subscription(BaseSubscription):
             subwhere.append("created_at < %d" % filter_obj.until)
         if filter_obj.tags:
             for tagname, tags in filter_obj.tags:
+                if not tags:
+                    # a condition with no values matches nothing
+                    raise ValueError("tags")
+                name_param = f"tag{len(params)}"
+                params[name_param] = tagname
                 pstr = []
                 for val in tags:
-                    if val:
-                        val = val.replace("'", "''")
-                        pstr.append(f"'{val}'")
-                if pstr:
-                    pstr = ",".join(pstr)
-                    subwhere.append(
-                        f"id IN (SELECT id FROM tags WHERE name = '{tagname}' AND value IN ({pstr})) "
-                    )
+                    value_param = f"tag{len(params)}"
+                    params[value_param] = val
+                    pstr.append(f":{value_param}")
+                pstr = ",".join(pstr)
+                subwhere.append(
+                    f"id IN (SELECT id FROM tags WHERE name = :{name_param} AND value IN ({pstr})) "
+                )
         return filter_obj
 
     def build_query(self, filters):
@@ -626,11 +634,12 @@ class Subscription(BaseSubscription):
         )
         # every filter is limited on its own: {where clause: limit}
         subqueries = {}
+        params = {}
         new_filters = []
         for filter_obj in filters:
             subwhere = []
             try:
-                filter_obj = self.evaluate_filter(filter_obj, subwhere)
+                filter_obj = self.evaluate_filter(filter_obj, subwhere, params)
             except ValueError:
                 self.log.debug("bad query %s", filter_obj)
                 filter_obj = NostrQuery()
@@ -652,7 +661,10 @@ class Subscription(BaseSubscription):
             for where, limit in subqueries.items()
         )
         query += "\nORDER BY created_at DESC"
-        return sa.text(query), new_filters
+        query = sa.text(query)
+        if params:
+            query = query.bindparams(**params)
+        return query, new_filters
 
 
 class QueryGarbageCollector(BaseGarbageCollector):
